@@ -108,7 +108,7 @@ vector<double> NumCalcApplicationTools::getVector(const std::string& desc)
     {
       int size = TextTools::toInt(keyvals["size"]);
       double step = (end - start) / (double)size;
-      for (int i = 0; i < size - 1; i++)
+      for (int i = 0; i + 1 < size; i++)
       {
         double x = start + i * step;
         double y;
